@@ -5,7 +5,7 @@
    compositional index map (Spec.v). *)
 From Coq Require Import ZArith List Bool String.
 Import ListNotations.
-From KD Require Import C02.Model C02.Spec C02.Proofs C02.AttrModel C02.AttrSpec C02.AttrProofs.
+From KD Require Import C02.Model C02.Spec C02.Proofs C02.AttrModel C02.AttrSpec C02.AttrProofs C02.Hist C02.Heap.
 Local Notation length := List.length.
 Open Scope Z_scope.
 
@@ -92,6 +92,90 @@ Theorem getall_offered_is_map : forall s,
   getall s = GOk (yields_list s) (map_of s) /\ is_fin (den_of s) = true.
 Proof. exact Proofs.getall_offered_is_map. Qed.
 Print Assumptions getall_offered_is_map.
+
+(* ---------------------------------------------------------------------------------------------- *)
+(* accessors are pure: histories of bulk / per-sample accesses on stacks sharing objects           *)
+(* ---------------------------------------------------------------------------------------------- *)
+(* every step of a history (getall_x / utils.getall / len / getitem_x on the composed stack, on one of its parts, on
+   another stack built over the same parts) returns what that access alone returns *)
+Theorem getall_pure : forall h t s o,
+  nth_error h t = Some (s, o) -> nth_error (run_hist h) t = Some (eval_op s o).
+Proof. exact hist_step_alone. Qed.
+Print Assumptions getall_pure.
+
+(* getall is idempotent: the same question to the same stack, anywhere in the history, has the same answer *)
+Theorem getall_idempotent : forall h t1 t2 s o,
+  nth_error h t1 = Some (s, o) -> nth_error h t2 = Some (s, o) ->
+  nth_error (run_hist h) t1 = nth_error (run_hist h) t2.
+Proof. exact hist_same_step_same_answer. Qed.
+Print Assumptions getall_idempotent.
+
+(* ... and it is the index map, after whatever history *)
+Theorem getall_in_history_is_map : forall h t s,
+  valid s = true -> lists_ok s = true -> has_getall s = true ->
+  nth_error h t = Some (s, HGetall) ->
+  nth_error (run_hist h) t = Some (HRAll (GOk (yields_list s) (map_of s))).
+Proof. exact hist_getall_is_map. Qed.
+Print Assumptions getall_in_history_is_map.
+
+Theorem len_getitem_in_history_are_map : forall h t s,
+  valid s = true -> is_fin (den_of s) = true ->
+  (nth_error h t = Some (s, HLen) -> nth_error (run_hist h) t = Some (HRLen (Some (zlen (map_of s))))) /\
+  (forall k, - zlen (map_of s) <= k < zlen (map_of s) -> nth_error h t = Some (s, HItem k) ->
+     nth_error (run_hist h) t =
+     Some (HRItem (nth_error (map_of s) (Z.to_nat (if k <? 0 then zlen (map_of s) + k else k))))).
+Proof. exact hist_len_item_is_map. Qed.
+Print Assumptions len_getitem_in_history_are_map.
+
+(* The stateless model is justified on a heap of list OBJECTS (Heap.v: a root may hand out the very container it keeps,
+   KDConcatDataset._call_getall accumulates into a list it creates, KDSubset._call_getall builds a new list):
+   (1) the heap version returns an object holding exactly the value Model.getall computes, and fails when it fails; *)
+Theorem getall_on_heap_is_model : forall kept s h, wf kept (length h) s h ->
+  match getall_h kept s h with
+  | HOk l b h' => getall s = GOk b (cell h' l)
+  | Heap.HMissing => getall s = GMissing
+  | Heap.HErr => getall s = GErr
+  end.
+Proof. exact getall_heap_refines. Qed.
+Print Assumptions getall_on_heap_is_model.
+
+(* (2) it writes to NO list object that existed before the call -- not to a container kept by a root, not to a result
+   handed out by an earlier call: objects are only added *)
+Theorem getall_writes_no_existing_object : forall kept s h l b h',
+  getall_h kept s h = HOk l b h' ->
+  (length h <= length h')%nat /\ forall l0, (l0 < length h)%nat -> cell h' l0 = cell h l0.
+Proof. exact getall_heap_frame. Qed.
+Print Assumptions getall_writes_no_existing_object.
+
+(* (3) hence asking twice: the second answer has the content of the first, the object returned first still has it, and
+   the roots' containers still hold the roots' data *)
+Theorem getall_twice_on_heap : forall kept s h l1 b1 h1 l2 b2 h2, wf kept (length h) s h ->
+  getall_h kept s h = HOk l1 b1 h1 -> (l1 < length h1)%nat -> getall_h kept s h1 = HOk l2 b2 h2 ->
+  b2 = b1 /\ cell h2 l2 = cell h1 l1 /\ cell h2 l1 = cell h1 l1 /\ wf kept (length h) s h2.
+Proof. exact getall_heap_twice. Qed.
+Print Assumptions getall_twice_on_heap.
+
+(* non-vacuity: a concat whose first part hands out the container it keeps (object 0), asked twice *)
+Definition nv_kept (id : Z) : option nat := if id =? 0 then Some 0%nat else None.
+Definition nv_heap : heap := [root_content 0 3].
+Definition nv_cat : stack := Cat false [Wrap 2 (Root 0 3 PList); Sub 0 [1; 1] (Root 1 2 PArray)].
+Example nonvacuous_heap :
+  wf nv_kept (length nv_heap) nv_cat nv_heap /\
+  match getall_h nv_kept nv_cat nv_heap with
+  | HOk l1 b1 h1 =>
+      match getall_h nv_kept nv_cat h1 with
+      | HOk l2 b2 h2 => (l1, l2, b1, b2, cell h2 0, cell h2 l1, cell h2 l2)
+      | _ => (0, 0, false, false, [], [], [])%nat
+      end
+  | _ => (0, 0, false, false, [], [], [])%nat
+  end = (1%nat, 4%nat, true, true, [(0, 0); (0, 1); (0, 2)], [(0, 0); (0, 1); (0, 2); (1, 1); (1, 1)],
+         [(0, 0); (0, 1); (0, 2); (1, 1); (1, 1)]) /\
+  getall nv_cat = GOk true [(0, 0); (0, 1); (0, 2); (1, 1); (1, 1)].
+Proof.
+  split; [|vm_compute; split; reflexivity].
+  intros id n l I K. simpl in I. destruct I as [I|[I|[]]]; injection I as <- <-; vm_compute in K; [|discriminate].
+  injection K as <-. split; [vm_compute; constructor | reflexivity].
+Qed.
 
 (* introspection through every linear chain of layers *)
 Theorem root_of_linear_chain : forall ls id n pk, root (build ls (Root id n pk)) = id.
